@@ -95,34 +95,79 @@ def fold_obligations(ctx, rep, prog, g):
 
 def or_obligations(ctx, rep, prog, g):
     rule = "T-OR"
-    rep.rule(rule, 30, "`||`: bound_sets concatenates the alternatives; Range::satisfies is the OR of the alternatives")
+    rep.rule(rule, 30, "`||`: the alternatives collected by bound_sets admit exactly what the listed alternatives admit "
+                       "(bounds and prerelease gate of every alternative); Range::satisfies is the OR of the alternatives")
     clo = _closure_of(g, "range::bound_sets")
     if clo is None:
-        rep.inconc("range::bound_sets has no flattening closure")
+        rep.inconc("range::bound_sets has no collecting closure")
     else:
-        for lens in [()] + [l for n in (1, 2, 3) for l in itertools.product(range(0, 3), repeat=n)]:
-            lists = []
-            names = []
-            c = 0
-            for ln in lens:
-                one = []
-                for _ in range(ln):
-                    one.append(Tok("S", "s%d" % c, 1 << c, dom="set"))
-                    names.append("s%d" % c)
-                    c += 1
-                lists.append(ListV(one))
-            it = Interp(prog, Policy())
-            try:
-                r = it.call_closure(clo, [ListV(lists)])
-            except Inconclusive as e:
-                rep.inconc("%s: %s" % (rule, e.reason), e.where)
-                continue
-            rep.path((rule, path_sig(it)))
-            got = [getattr(it.strip(x), "name", "?") for x in it.strip(r).items]
-            if got == names:
-                rep.ok(rule)
-            else:
-                rep.fail(rule, "%s|%s|lengths=%s" % (clo.key, rule, lens), "alternatives %s became %s" % (names, got))
+        gate_sets = [frozenset(), frozenset([0]), frozenset([1])]
+        shapes = [()] + [l for n in (1, 2, 3) for l in itertools.product(range(0, 3), repeat=n) if sum(l) <= 3]
+        ncase = 0
+        for lens in shapes:
+            total = sum(lens)
+            for inh in (setalg.worlds(total) if total else [0]):
+                for gates in itertools.product(gate_sets, repeat=total):
+                    if total == 3 and not ctx.thorough and len(set(gates)) == 3:
+                        continue
+                    stack = [[]]
+                    while stack:
+                        prefix = stack.pop()
+                        world = setalg.SetWorld(total, inh)
+                        cx = Ctx(prefix)
+                        it = Interp(prog, Policy(), ctx=cx, overrides=setalg.overrides(world, cx))
+                        toks = []
+                        lists = []
+                        c = 0
+                        for ln in lens:
+                            one = []
+                            for _ in range(ln):
+                                t = Tok("S", "s%d" % c, world.gen(c), dom="set", extra={"gates": gates[c]})
+                                one.append(t)
+                                toks.append(t)
+                                c += 1
+                            lists.append(ListV(one))
+                        ncase += 1
+                        try:
+                            r = it.call_closure(clo, [ListV(lists)])
+                        except Inconclusive as e:
+                            rep.inconc("%s: %s" % (rule, e.reason), e.where)
+                            break
+                        except Panic as p:
+                            rep.fail(rule, "%s|%s|panic" % (clo.key, rule), "panics: %s" % p)
+                            break
+                        rep.path((rule, path_sig(it)))
+                        out = [it.strip(x) for x in it.strip(r).items]
+                        problem = None
+                        for x in out:
+                            if not (isinstance(x, Tok) and x.kind == "S" and x.extra and "gates" in x.extra):
+                                problem = "the collected alternatives contain a rebuilt interval %r" % (x,)
+                        if problem is None:
+                            # probes: every inhabited element type x {release, prerelease tagged 0, prerelease tagged 1}
+                            for et in range(1, 1 << total):
+                                if not (inh >> et & 1):
+                                    continue
+                                for probe in ("release", 0, 1):
+                                    def sat(ts):
+                                        return any((t.val >> et & 1) and (probe == "release" or probe in t.extra["gates"]) for t in ts)
+                                    if sat(toks) != sat(out):
+                                        problem = ("a %s version lying in alternatives %s is %s by the parsed range but %s by the listed "
+                                                   "alternatives" % ("release" if probe == "release" else "prerelease (gate tag %s)" % probe,
+                                                                     bin(et), "admitted" if sat(out) else "rejected", "admitted" if sat(toks) else "rejected"))
+                                        break
+                                if problem:
+                                    break
+                        if problem is None:
+                            rep.ok(rule)
+                        else:
+                            sp = it.ret_span.get(clo.key)
+                            rep.fail(rule, "%s|%s|alternatives=%s" % (clo.key, rule, "+".join(map(str, lens))), problem,
+                                     where=prog.span_str(sp) if sp else None,
+                                     example="1.x || 1.5.0-beta loses the prerelease alternative" if "prerelease" in problem else None)
+                        for i in range(len(cx.decisions) - 1, len(prefix) - 1, -1):
+                            for alt in range(cx.arity[i] - 1, 0, -1):
+                                stack.append(cx.decisions[:i] + [alt])
+        rep.analysed_item("%s interpreted on %d (alternative lists, world, gate tags) cases" % (clo.key, ncase))
     n = 3 if not ctx.thorough else 4
     cnt = 0
     for k in range(1, n + 1):
